@@ -2,6 +2,7 @@
 EXTENDS MPStudy
 MCAllFailSets == SUBSET Cases
 MCNoFail == {{}}
+MCFewFailSets == {{}, {0}, {0, 1}}
 MCOneFail == {{}, {1}}
 MCAllKinds == {"list", "tuple", "empty_tuple"}
 MCListOnly == {"list"}
